@@ -297,6 +297,12 @@ def do_check(prop, tier, seed, repo, replay=None):
         all_results[st.name] = res
         stage_info.append({'stage': st.name, 'preset': st.preset, 'cc': st.cc,
                            'processes': len(res), 'wall_s': round(time.time() - ts, 2)})
+        # VERIF_FAIL_FAST=1 (used when running the catalogue of seeded changes): a stage that has produced a witness
+        # decides the run; the remaining stages are skipped (real-thread stages over a broken library can sit until
+        # their time limit).  Never set for the registered commands.
+        if os.environ.get('VERIF_FAIL_FAST') and any(
+                any(not v.get('key', '').startswith('hang:') for v in r.get('violations', [])) for r in res):
+            break
 
     # ---- merge
     evaluations = 0
